@@ -26,6 +26,58 @@ def tokens(b):
     return " ".join(docrun.item_token(it) for it in b)
 
 
+def term_tree_size(text):
+    """size of the largest value of the block written as a tree (a duplicated value counted at every use): the tool works on
+    such trees, so this - not the number of instructions - is the size of what it traverses"""
+    import vocab
+    toks = text.split()
+    st, big, i = [1] * 40, 1, 0
+    while i < len(toks):
+        t = toks[i]
+        i += 1
+        if t.startswith("PUSH"):
+            if t != "PUSH0" and i < len(toks) and not toks[i].isupper():
+                i += 1
+            if t == "PUSH" and i < len(toks) and toks[i - 1] in ("[tag]", "data", "#[$]", "[$]"):
+                i += 1
+            st.append(1)
+            continue
+        if t.startswith("DUP") and t[3:].isdigit():
+            st.append(st[-int(t[3:])] if int(t[3:]) <= len(st) else 1)
+            continue
+        if t.startswith("SWAP") and t[4:].isdigit():
+            k = int(t[4:])
+            if k < len(st):
+                st[-1], st[-1 - k] = st[-1 - k], st[-1]
+            continue
+        if t == "POP":
+            ar, out = 1, 0
+        elif t in vocab.UN or t in vocab.ENV1 or t in ("MLOAD", "SLOAD"):
+            ar, out = 1, 1
+        elif t in vocab.BIN or t in ("KECCAK256", "SHA3"):
+            ar, out = 2, 1
+        elif t in vocab.TER:
+            ar, out = 3, 1
+        elif t in ("MSTORE", "MSTORE8", "SSTORE"):
+            ar, out = 2, 0
+        elif t in vocab.EXT:
+            ar, out = vocab.EXT[t]
+        else:
+            ar, out = 0, 1
+        args = [st.pop() if st else 1 for _ in range(ar)]
+        if out:
+            st.append(1 + sum(args))
+        big = max([big, 1 + sum(args)] + st[-1:])
+    return big
+
+
+def over_budget_kind(text):
+    """a block whose values, written as trees, are far larger than the block (one value duplicated and combined with itself again
+    and again) is the recorded limitation of the tree-based traversals; anything else over the budget is a violation of its own"""
+    n = max(1, len(text.split()))
+    return "time-exponential-in-duplication-depth" if term_tree_size(text) > 1000 * n else "block-exceeds-time-budget"
+
+
 def run(tier):
     sd = common.seed()
     rng = random.Random(sd * 577 + 31)
@@ -41,17 +93,24 @@ def run(tier):
         ["NOT NOT", "DUP1 NOT NOT ADD", " ".join(["ISZERO"] * 40), " ".join(["DUP1"] * 20 + ["ADD"] * 19), "PUSH1 0x0 PUSH1 0x5 DIV",
          "PUSH1 0x0 PUSH1 0x5 MOD", "PUSH32 0x" + "f" * 64 + " PUSH1 0x3 EXP", "PUSH32 0x" + "f" * 64 + " PUSH32 0x" + "f" * 64 + " EXP",
          "PUSH32 0x" + "f" * 64 + " DUP1 SHL", "PUSH1 0x5 PUSH1 0x3 PUSH1 0x4 ADDMOD", "PUSH1 0x0 PUSH1 0x3 PUSH1 0x4 MULMOD",
-         " ".join("SWAP%d" % k for k in range(1, 17)), " ".join(["DUP16"] * 3 + ["POP"] * 3)]
+         " ".join("SWAP%d" % k for k in range(1, 17)), " ".join(["DUP16"] * 3 + ["POP"] * 3),
+         # a value combined with its own copy again and again: linear as a graph, exponential as a tree
+         "CALLER " + " ".join(["DUP1 ADD"] * 10), "CALLER " + " ".join(["DUP1 ADD"] * 19), "DUP1 " + " ".join(["DUP1 MUL"] * 8),
+         # two loads between consecutive stores: the number of dependence paths doubles per store
+         " ".join(["DUP2 SLOAD DUP4 SLOAD ADD DUP2 SSTORE"] * 26), " ".join(["DUP2 MLOAD DUP4 MLOAD ADD DUP2 MSTORE"] * 26),
+         " ".join(["DUP2 SLOAD DUP4 SLOAD DUP6 SLOAD ADD ADD DUP2 SSTORE"] * 16),
+         # blocks that reach the 16th and 17th stack word
+         "DUP16 DUP2 ADD SWAP16 POP PUSH1 0x1 ADD", "SWAP16 DUP16 SWAP16 POP", "DUP16 DUP16 ADD SWAP16 SWAP1 SWAP16 POP"]
     osets = [["-greedy"], ["-greedy", "-size"], ["-greedy", "-storage"]]
     runs = e2e.run_optimize(blocks, osets, assign="rotate", timeout=BUDGET_S + 10) + e2e.run_optimize(extreme, [["-greedy"]], assign="all", timeout=BUDGET_S + 10)
     for text, opts, e, st in runs:
         c["blocks"] += 1
         if e is None:
-            kind = {"timeout": "block-exceeds-time-budget", "worker-died": "worker-killed-(memory-or-crash)"}.get(st, "run-failure:" + st.split(":")[0])
+            kind = {"timeout": over_budget_kind(text), "worker-died": "worker-killed-(memory-or-crash)"}.get(st, "run-failure:" + st.split(":")[0])
             violations.append({"kind": kind, "input": text, "options": opts, "what": "%s on %s with %s (budget %ss, 3 GiB)" % (st, text, opts, BUDGET_S)})
             continue
         if e.get("wall") and e["wall"] > BUDGET_S:
-            violations.append({"kind": "block-exceeds-time-budget", "input": text, "options": opts, "what": "%.1fs on %s" % (e["wall"], text)})
+            violations.append({"kind": over_budget_kind(text), "input": text, "options": opts, "what": "%.1fs on %s" % (e["wall"], text)})
         for k in ("optimize_exception", "compare_exception"):
             if k in e:
                 violations.append({"kind": "exception-escapes-the-block-pipeline", "input": text, "options": opts,
